@@ -115,7 +115,7 @@ func (g *c11Gen) yaml() (text string, expectAccept bool) {
 		c.kind = pick(r, kinds...)
 		c.sensor = sensorIds[r.Intn(len(sensorIds))]
 		if g.hostile && r.Intn(20) == 0 && c.kind != "function" {
-			c.sensor = pick(r, id("nosuchsensor"), "")
+			c.sensor = pick(r, id("nosuchsensor"), "", c11CaseVariant(sensorIds[r.Intn(len(sensorIds))]))
 			g.note("dangling-or-empty-sensor-ref")
 		}
 		if c.kind == "function" {
@@ -163,7 +163,7 @@ func (g *c11Gen) yaml() (text string, expectAccept bool) {
 		case 1:
 			c := cs[r.Intn(nC)]
 			c.kind = "function"
-			c.members = []string{id("nosuchcurve")}
+			c.members = []string{pick(r, id("nosuchcurve"), c11CaseVariant(cs[r.Intn(nC)].id))}
 			g.note("dangling-curve-ref")
 		case 2:
 			c := cs[r.Intn(nC)]
@@ -307,7 +307,7 @@ func (g *c11Gen) yaml() (text string, expectAccept bool) {
 		entry += pick(r, "", "    neverStop: true\n", "    neverStop: false\n")
 		cref := cs[r.Intn(nC)].id
 		if g.hostile && r.Intn(15) == 0 {
-			cref = pick(r, id("nosuchcurve"), "")
+			cref = pick(r, id("nosuchcurve"), "", c11CaseVariant(cs[r.Intn(nC)].id))
 			g.note("dangling-or-empty-fan-curve-ref")
 		}
 		if cref != "" || r.Intn(2) == 0 {
@@ -618,4 +618,13 @@ func init() {
 			c11RunCase(ctx, i, i%3 != 0)
 		}
 	})
+}
+
+// c11CaseVariant: an id that differs from a declared one only in letter case - still a reference to nothing
+func c11CaseVariant(id string) string {
+	up := strings.ToUpper(id)
+	if up != id {
+		return up
+	}
+	return strings.ToLower(id)
 }
